@@ -36,6 +36,7 @@ type rpf struct {
 	steps    int
 	inTableLoop int
 	multiHook func(call *ast.CallExpr, callee types.Object) ([]*Val, bool)
+	unroll    int // > 0: plain `for` loops over scalar state are unrolled up to this many iterations (constant propagation with bounded unrolling); 0: such loops are outside the fragment
 }
 
 func vint(i int64) *Val  { return &Val{K: VInt, I: i} }
@@ -54,6 +55,7 @@ func (c *Ctx) rpfCall(fd *ast.FuncDecl, p *packages.Package, args []*Val, hooks 
 		r.idxHook = hooks.idxHook
 		r.stHook = hooks.stHook
 		r.multiHook = hooks.multiHook
+		r.unroll = hooks.unroll
 	}
 	defer func() {
 		if x := recover(); x != nil {
@@ -360,6 +362,42 @@ func (r *rpf) stmt(s ast.Stmt) *rpfReturn {
 			}
 			if brk {
 				break
+			}
+		}
+		return nil
+	case *ast.ForStmt:
+		if r.unroll <= 0 {
+			rpfFail("%s: statement outside the pure fragment (%T)", r.c.pos(s.Pos()), s)
+		}
+		if x.Init != nil {
+			if ret := r.stmt(x.Init); ret != nil {
+				return ret
+			}
+		}
+		for n := 0; ; n++ {
+			if n > r.unroll {
+				rpfFail("%s: loop not finished after %d unrolled iterations", r.c.pos(x.Pos()), r.unroll)
+			}
+			if x.Cond != nil {
+				cv := r.expr(x.Cond)
+				if cv.K != VBool {
+					rpfFail("%s: loop condition not decidable", r.c.pos(x.Cond.Pos()))
+				}
+				if !cv.B {
+					break
+				}
+			}
+			r.inTableLoop++
+			ret, brk := r.loopIter(x.Body.List)
+			r.inTableLoop--
+			if ret != nil {
+				return ret
+			}
+			if brk {
+				break
+			}
+			if x.Post != nil {
+				r.stmt(x.Post)
 			}
 		}
 		return nil
